@@ -1,6 +1,6 @@
 #pragma once
 #include <Arduino.h>
-#include <LiquidCrystal.h>
+#include <__MockLcdBase.h>
 class LiquidCrystal_I2C : public __MockLcdBase {
  public:
   int i2c_addr;
